@@ -43,7 +43,7 @@ def run(module, cfg=None, *, workers=None, envvars=None, timeout=3600, simulate=
     cfg = cfg or (module + '.cfg')
     own_meta = metadir is None
     metadir = metadir or env.scratch('tlcmeta_')
-    cmd = ['java', f'-Xmx{heap}', '-Xss64m', '-XX:+UseParallelGC']
+    cmd = ['java', f'-Xmx{heap}', '-Xss64m', '-XX:+UseParallelGC', f'-Djava.io.tmpdir={metadir}']   # TLC's own tlc-<n> scratch goes with the metadir
     if dfs:
         cmd.append('-Dtlc2.tool.queue.IStateQueue=StateDeque')
     cmd += ['-cp', _classpath(), 'tlc2.TLC', '-metadir', metadir, '-noGenerateSpecTE',
